@@ -194,6 +194,9 @@ func c01Run(run *ev.Run) {
 		// expired sessions: absolute time-out of 900 s with tokens that live 600 s, starting from a completed login
 		{Store: "memory", Forward: true, Logout: true, Abs: 900, TokenLife: 600},
 		{Store: "redis", Forward: true, Logout: true, Abs: 900, TokenLife: 600},
+		// ... and with an idle time-out next to it that a session used every 600 s never reaches
+		{Store: "memory", Forward: true, Logout: true, Abs: 900, Idle: 800, TokenLife: 600},
+		{Store: "redis", Forward: true, Logout: true, Abs: 900, Idle: 800, TokenLife: 600},
 		// two service replicas on one Redis server, every request served by either
 		{Store: "redis", Forward: true, Logout: true, Replicas: 2},
 		// the full fault alphabet
@@ -243,7 +246,7 @@ func c01Run(run *ev.Run) {
 		if !st.Complete {
 			run.Cap(fmt.Sprintf("store=%s forward=%v: search stopped at depth %d of %d", spec.Store, spec.Forward, st.DepthDone, depth))
 		}
-		name := fmt.Sprintf("%s_fwd=%v_abs=%d_replicas=%d_shapes=%v", spec.Store, spec.Forward, spec.Abs, spec.Replicas, spec.Shapes)
+		name := fmt.Sprintf("%s_fwd=%v_abs=%d_idle=%d_replicas=%d_shapes=%v", spec.Store, spec.Forward, spec.Abs, spec.Idle, spec.Replicas, spec.Shapes)
 		run.Extra["levels_"+name] = st.LevelSizes
 		run.Extra["wall_s_"+name] = int(time.Since(t0).Seconds())
 	}
